@@ -13,8 +13,10 @@ def Rd.rank : Rd → Nat
   | .got _ => 3
   | _ => 0
 
-/-- Work left for one reader: three units per byte that can still reach it, plus its own position. -/
-def Side.mu (d : Side) : Nat := 3 * (d.pipe.length + d.pending.length) + d.rd.rank
+/-- Work left for one reader: three units per byte that can still reach it, plus its own position,
+plus the child's `close` of its end of the stream. -/
+def Side.mu (d : Side) : Nat :=
+  3 * (d.pipe.length + d.pending.length) + d.rd.rank + (if d.wopen = true then 1 else 0)
 
 def Pc.mu (timeout now : Nat) : Pc → Nat
   | .load => 6 + 5 * (timeout - now) + 4
@@ -33,6 +35,8 @@ def Pc.mu (timeout now : Nat) : Pc → Nat
   | .flagErr _ _ => 1
   | .done _ => 0
   | .preJoinWr => 0
+  | .drainFlag _ => 0
+  | .blockWait => 0
 
 /-- Work left on the stdin side: bytes still to be written and read, the writer's last step, the
 child's `close`. -/
@@ -50,7 +54,7 @@ def State.mu (cfg : Cfg) (s : State) : Nat :=
 
 theorem Side.write_mu {pipeCap n} {d d' : Side} (h : Side.write pipeCap d n = some d') :
     d'.mu ≤ d.mu ∧ d'.pending.length < d.pending.length := by
-  obtain ⟨pending, written, pipe, acc, rd⟩ := d
+  obtain ⟨pending, written, pipe, acc, rd, wopen⟩ := d
   simp only [Side.write] at h
   split at h
   · cases h
@@ -63,7 +67,7 @@ theorem Side.write_mu {pipeCap n} {d d' : Side} (h : Side.write pipeCap d n = so
 
 theorem Side.drop_mu {n} {d d' : Side} (h : Side.drop d n = some d') :
     d'.mu ≤ d.mu ∧ d'.pending.length < d.pending.length := by
-  obtain ⟨pending, written, pipe, acc, rd⟩ := d
+  obtain ⟨pending, written, pipe, acc, rd, wopen⟩ := d
   simp only [Side.drop] at h
   split at h
   · cases h
@@ -74,7 +78,7 @@ theorem Side.drop_mu {n} {d d' : Side} (h : Side.drop d n = some d') :
 
 theorem Side.read_mu {chunk} {d d' : Side} (h : Side.read chunk d = some d') :
     d'.mu < d.mu ∧ d'.pending = d.pending := by
-  obtain ⟨pending, written, pipe, acc, rd⟩ := d
+  obtain ⟨pending, written, pipe, acc, rd, wopen⟩ := d
   simp only [Side.read] at h
   cases rd <;> simp at h
   obtain ⟨⟨hc, hp⟩, rfl⟩ := h
@@ -83,15 +87,23 @@ theorem Side.read_mu {chunk} {d d' : Side} (h : Side.read chunk d = some d') :
 
 theorem Side.eof_mu {al} {d d' : Side} (h : Side.eof al d = some d') :
     d'.mu < d.mu ∧ d'.pending = d.pending := by
-  obtain ⟨pending, written, pipe, acc, rd⟩ := d
+  obtain ⟨pending, written, pipe, acc, rd, wopen⟩ := d
   simp only [Side.eof] at h
   cases rd <;> simp at h
   obtain ⟨_, rfl⟩ := h
   simp [Side.mu, Rd.rank]
 
+theorem Side.close_mu {d d' : Side} (h : Side.close d = some d') :
+    d'.mu < d.mu ∧ d'.pending = d.pending := by
+  obtain ⟨pending, written, pipe, acc, rd, wopen⟩ := d
+  simp only [Side.close] at h
+  split at h
+  · next hc => cases h; simp [Side.mu, hc.1]
+  · cases h
+
 theorem Side.fail_mu {d d' : Side} (h : Side.fail d = some d') :
     d'.mu < d.mu ∧ d'.pending = d.pending := by
-  obtain ⟨pending, written, pipe, acc, rd⟩ := d
+  obtain ⟨pending, written, pipe, acc, rd, wopen⟩ := d
   simp only [Side.fail] at h
   cases rd <;> simp at h
   subst h
@@ -141,7 +153,7 @@ theorem Inp.childClose_mu {i i' : Inp} (h : Inp.childClose i = some i') : i'.mu 
 
 theorem Side.check_mu {cap my flag flag'} {d d' : Side} (h : Side.check cap my flag d = some (d', flag')) :
     d'.mu < d.mu ∧ d'.pending = d.pending := by
-  obtain ⟨pending, written, pipe, acc, rd⟩ := d
+  obtain ⟨pending, written, pipe, acc, rd, wopen⟩ := d
   simp only [Side.check] at h
   cases rd <;> simp at h
   split at h <;> simp at h <;> obtain ⟨rfl, rfl⟩ := h <;> simp [Side.mu, Rd.rank]
@@ -201,6 +213,14 @@ theorem step_mu_lt {cfg : Cfg} {plan : Plan} {s s' : State} {l : Label}
       split at h
       · cases h; simp [State.mu, (Child.isAlive_iff _).mp hc.1, Child.mu]
       · cases h
+    · cases h
+  | childClose x =>
+    simp only [step] at h
+    split at h
+    · simp only [Option.map_eq_some_iff] at h
+      obtain ⟨d', hd, rfl⟩ := h
+      have := Side.close_mu hd
+      cases x <;> simp_all [State.mu] <;> omega
     · cases h
   | rdRead x =>
     simp only [step, Option.map_eq_some_iff] at h
@@ -298,7 +318,7 @@ set_option linter.unusedSimpArgs false
 theorem Side.can_step {cap chunk my flag : Nat} {d : Side} (hchunk : 0 < chunk) (hj : d.finished = false) :
     (Side.read chunk d).isSome = true ∨ (Side.check cap my flag d).isSome = true ∨
       (Side.eof false d).isSome = true := by
-  obtain ⟨pending, written, pipe, acc, rd⟩ := d
+  obtain ⟨pending, written, pipe, acc, rd, wopen⟩ := d
   cases rd <;> simp [Side.finished] at hj
   · by_cases hp : pipe = []
     · right; right; simp [Side.eof, hp]
